@@ -24,17 +24,18 @@ ASSUMPTIONS = {
     "A8": "A8 unsafe: String::from_utf8_unchecked precondition is a proved obligation; the poll decoder's transmutes are covered functionally by the Kani step contract, not at the memory-model level (Kani -Z uninit-checks ICEs on this crate)",
     "A9": "A9 soundness of Verus/Z3, Kani/CBMC, rustc -Zunpretty=expanded and of the logged textual rewrite rules",
     "A10": "A10 the ? operator converts errors with From::from (one monomorphic axiom per conversion; the From impl bodies are themselves verified)",
+    "A11": "A11 rewrite rule R30 (used for ConnackProperties::encode only): replacing a statement S of a function returning io::Result by `self.h(writer)?` where `fn h(&self, writer) -> io::Result<()> { S; Ok(()) }` preserves behaviour (S's tokens are unchanged; an early `return Err(e)` inside S becomes h's result and is re-raised by `?` through the reflexive From<io::Error> for io::Error)",
 }
 
 # which assumptions each back end brings in
-VERUS_ASSUMES = ["A1", "A2", "A3", "A4", "A5", "A6", "A7", "A9", "A10"]
+VERUS_ASSUMES = ["A1", "A2", "A3", "A4", "A5", "A6", "A7", "A9", "A10", "A11"]
 KANI_ASSUMES = ["A6", "A9"]
 
 
 # Functions a property depends on that are NOT (yet) under a discharged contract: reported in every evidence file
 # so the gap is visible; they are never counted as proved.
-V5_REST = "v5: ConnackProperties::encode (16 optional properties) exceeds the usable solver resource cap and is carried as an assumed contract (its encode_len and decoder are proved); PollHeader::new_with forwarders and Packet::get_type are not under contract"
-LEMMAS = "spec-level composition lemmas (round trip p_X(enc_X(x)+rest)==Ok(x), prefix=>Incomplete, framing of concatenations, |enc| <= consumed) are proved for the variable byte integer only; for packet bodies the property is decided per function (encoder == enc_X, decoder == p_X, decoded value valid() for the encoder) and the composition is by inspection of the two specs"
+V5_REST = "v5: ConnackProperties::encode is proved on a text in which each of its 16 conditional property writes is outlined into a helper function (rewrite rule R30, tokens of the statements unchanged; assumption A11); PollHeader::new_with forwarders and Packet::get_type are not under contract"
+LEMMAS = "spec-level composition lemmas: round trip p_X(enc_X(x)+rest)==Ok(x,|enc|) is proved (unit lem3) for the primitives, the fixed header and every v3 packet type as a whole packet with trailing bytes; prefix=>Incomplete for the primitives only; for the v5 packets, framing of concatenations and |enc| <= consumed the property is decided per function (encoder == enc_X, decoder == p_X, decoded value valid() for the encoder) and the composition is by inspection of the two specs"
 GAPS = {
     "C01": [V5_REST, LEMMAS, "poll body phase is bounded (body length <= 4)"],
     "C02": [V5_REST, "F5-style oversize property sections: encode_len's precondition valid() excludes sections >= 2^28 bytes (the crate panics there instead of returning an error; not exercised by any obligation)"],
